@@ -50,6 +50,23 @@ pub struct ReqSpec {
     /// 3: deep path with encoded characters and a longer query
     #[serde(default)]
     pub target: u8,
+    /// HTTP/1.1 only: the request asks for a protocol upgrade; the handler answers 101 and both
+    /// sides then exchange `body_len` / `resp_len` raw bytes over the taken-over connection
+    #[serde(default)]
+    pub upgrade: bool,
+}
+
+pub const UPGRADE_PROTO: &str = "hdv-echo";
+
+/// An upgrade is only asked for where it can happen: on an HTTP/1.1 request to an origin that no
+/// request of the case addresses over HTTP/2 (the pool may serve any request of an origin on its
+/// multiplexed HTTP/2 connection, where the hop-by-hop Upgrade/Connection headers are stripped by
+/// design and no upgrade exists).
+pub fn is_upgrade(case: &NetCase, spec: &ReqSpec) -> bool {
+    let n = case.servers.len();
+    spec.upgrade
+        && request_version(case, spec) == http::Version::HTTP_11
+        && !case.reqs.iter().any(|r| r.server as usize % n == spec.server as usize % n && request_version(case, r) == http::Version::HTTP_2)
 }
 
 pub fn target_of(id: usize, target: u8) -> (String, Option<String>) {
@@ -85,6 +102,11 @@ pub struct NetCase {
     pub faults: Vec<FaultSpec>,
     /// (server, virtual ms) of the graceful shutdown signal
     pub shutdown: Option<(u8, u16)>,
+    /// with `shutdown = Some((server, _))`: the signal resolves synchronously while that server's
+    /// k-th connection (0-based) is being accepted (inside its make-service call) instead of at a
+    /// virtual instant - i.e. in the middle of one poll of the serving future
+    #[serde(default)]
+    pub shutdown_on_accept: Option<u8>,
     pub pool: Option<NetPool>,
     pub connect_delay: u8,
     pub latency: u8,
@@ -354,6 +376,10 @@ pub struct Obs {
     pub probes: Vec<(usize, ClientOutcome)>,
     pub fault_log: Vec<String>,
     pub dials: usize,
+    /// (request id, server, connection id, virtual ms of the 101, problem found by the server's half of the raw exchange)
+    pub upgrades: Vec<(usize, usize, usize, u64, Option<String>)>,
+    /// virtual ms at which an accept-triggered shutdown signal fired
+    pub signal_at: Option<u64>,
 }
 
 impl Obs {
@@ -393,10 +419,12 @@ struct SrvCtx {
     obs: O,
     server: usize,
     reqs: Vec<ReqSpec>,
+    /// per request: an upgrade is expected (see `is_upgrade`)
+    upgrades: Vec<bool>,
 }
 
 async fn handle(ctx: Arc<SrvCtx>, conn: usize, req: http::Request<hyperdriver::Body>) -> Result<http::Response<ChunkBody>, BoxError> {
-    let (parts, body) = req.into_parts();
+    let (mut parts, body) = req.into_parts();
     let path = parts.uri.path().to_string();
     // the id travels in the path, the query and a header; the header identifies the script entry
     let id: Option<usize> = parts.headers.get("x-id").and_then(|v| v.to_str().ok()).and_then(|v| v.parse().ok());
@@ -430,7 +458,16 @@ async fn handle(ctx: Arc<SrvCtx>, conn: usize, req: http::Request<hyperdriver::B
     if parts.headers.get("x-keep").map(|v| v.as_bytes()) != Some(format!("v{id}").as_bytes()) {
         problems.push("x-keep header lost or altered".to_string());
     }
+    let upgrading = ctx.upgrades[id] && parts.headers.get(http::header::UPGRADE).map(|v| v.as_bytes()) == Some(UPGRADE_PROTO.as_bytes());
+    if ctx.upgrades[id] && !upgrading {
+        problems.push("upgrade header lost or altered".to_string());
+    }
     match body.collect().await {
+        Ok(c) if upgrading => {
+            if !c.to_bytes().is_empty() {
+                problems.push("upgrade request arrived with a body".to_string());
+            }
+        }
         Ok(c) => {
             let b = c.to_bytes();
             if b.len() != spec.body_len as usize {
@@ -457,6 +494,32 @@ async fn handle(ctx: Arc<SrvCtx>, conn: usize, req: http::Request<hyperdriver::B
     if spec.handler_error {
         return Err("scripted handler error".into());
     }
+    if upgrading {
+        let on = parts.extensions.remove::<hyper::upgrade::OnUpgrade>();
+        let obs = ctx.obs.clone();
+        let server = ctx.server;
+        let spec2 = spec.clone();
+        tokio::spawn(async move {
+            let problem = match on {
+                None => Some("the request carried no upgrade handle".to_string()),
+                Some(on) => match on.await {
+                    Err(e) => Some(format!("server-side upgrade failed: {e}")),
+                    Ok(up) => upgraded_server_half(hyperdriver::bridge::io::TokioIo::new(up), id, &spec2).await.err(),
+                },
+            };
+            let now = obs.lock().unwrap().now();
+            obs.lock().unwrap().upgrades.push((id, server, conn, now, problem));
+        });
+        return Ok(http::Response::builder()
+            .status(101)
+            .header(http::header::CONNECTION, "upgrade")
+            .header(http::header::UPGRADE, UPGRADE_PROTO)
+            .header("x-id", id)
+            .header("x-origin", ctx.server)
+            .header("x-conn", conn)
+            .body(ChunkBody::default())
+            .unwrap());
+    }
     let data: Vec<u8> = (0..spec.resp_len as usize).map(|i| resp_byte(id, i)).collect();
     Ok(http::Response::builder()
         .status(200 + (id % 3) as u16)
@@ -467,17 +530,73 @@ async fn handle(ctx: Arc<SrvCtx>, conn: usize, req: http::Request<hyperdriver::B
         .unwrap())
 }
 
+/// Server half of the raw exchange on a taken-over connection: read exactly the client's bytes,
+/// answer with the scripted bytes, close, and require end-of-stream (nothing invented).
+async fn upgraded_server_half<IO: AsyncRead + AsyncWrite + Unpin>(mut io: IO, id: usize, spec: &ReqSpec) -> Result<(), String> {
+    use tokio::io::{AsyncReadExt, AsyncWriteExt};
+    let mut got = vec![0u8; spec.body_len as usize];
+    io.read_exact(&mut got).await.map_err(|e| format!("reading the client's {} raw bytes: {e}", spec.body_len))?;
+    if let Some(i) = got.iter().enumerate().position(|(i, x)| *x != req_byte(id, i)) {
+        return Err(format!("raw bytes from the client differ at offset {i} (got {:?})", String::from_utf8_lossy(&got[i..got.len().min(i + 24)])));
+    }
+    let data: Vec<u8> = (0..spec.resp_len as usize).map(|i| resp_byte(id, i)).collect();
+    let n = (spec.resp_chunks as usize).max(1);
+    let step = data.len().div_ceil(n).max(1);
+    for c in data.chunks(step) {
+        io.write_all(c).await.map_err(|e| format!("writing raw bytes: {e}"))?;
+        io.flush().await.map_err(|e| format!("flushing raw bytes: {e}"))?;
+        if spec.resp_gap > 0 {
+            tokio::time::sleep(Duration::from_millis(spec.resp_gap as u64)).await;
+        }
+    }
+    io.shutdown().await.map_err(|e| format!("closing the taken-over stream: {e}"))?;
+    let mut extra = vec![];
+    match io.read_to_end(&mut extra).await {
+        Ok(_) if extra.is_empty() => Ok(()),
+        Ok(_) => Err(format!("{} unexpected bytes on the taken-over connection: {:?}", extra.len(), String::from_utf8_lossy(&extra[..extra.len().min(40)]))),
+        Err(_) => Ok(()),
+    }
+}
+
+async fn upgraded_client_half<IO: AsyncRead + AsyncWrite + Unpin>(mut io: IO, id: usize, spec: &ReqSpec) -> Result<(bool, usize), String> {
+    use tokio::io::{AsyncReadExt, AsyncWriteExt};
+    let data: Vec<u8> = (0..spec.body_len as usize).map(|i| req_byte(id, i)).collect();
+    let n = (spec.body_chunks as usize).max(1);
+    let step = data.len().div_ceil(n).max(1);
+    for c in data.chunks(step) {
+        io.write_all(c).await.map_err(|e| format!("writing raw bytes: {e}"))?;
+        io.flush().await.map_err(|e| format!("flushing raw bytes: {e}"))?;
+        if spec.body_gap > 0 {
+            tokio::time::sleep(Duration::from_millis(spec.body_gap as u64)).await;
+        }
+    }
+    let mut got = vec![];
+    io.read_to_end(&mut got).await.map_err(|e| format!("reading raw bytes: {e}"))?;
+    let _ = io.shutdown().await;
+    let ok = got.len() == spec.resp_len as usize && got.iter().enumerate().all(|(i, x)| *x == resp_byte(id, i));
+    Ok((ok, got.len()))
+}
+
 macro_rules! start_server {
-    ($builder:expr, $ctx:expr, $obs:expr, $server:expr, $shutdown:expr) => {{
+    ($builder:expr, $ctx:expr, $obs:expr, $server:expr, $shutdown:expr, $on_accept:expr) => {{
         let ctx: Arc<SrvCtx> = $ctx;
         let obs: O = $obs;
         let server: usize = $server;
         let conn_counter = Arc::new(AtomicUsize::new(0));
         let obs2 = obs.clone();
+        let on_accept: Option<usize> = $on_accept;
+        let (sig_tx, sig_rx) = tokio::sync::oneshot::channel::<()>();
+        let sig_tx = Mutex::new(Some(sig_tx));
         let make = hyperdriver::service::make_service_fn(move |_conn: &hyperdriver::server::conn::Stream| {
             let conn = conn_counter.fetch_add(1, Ordering::SeqCst);
             let now = obs2.lock().unwrap().now();
             obs2.lock().unwrap().accepted[server].push((conn, now));
+            if on_accept == Some(conn) {
+                if let Some(tx) = sig_tx.lock().unwrap().take() {
+                    obs2.lock().unwrap().signal_at = Some(now);
+                    let _ = tx.send(());
+                }
+            }
             let ctx = ctx.clone();
             async move { Ok::<_, std::convert::Infallible>(tower::service_fn(move |req: http::Request<hyperdriver::Body>| handle(ctx.clone(), conn, req))) }
         });
@@ -485,9 +604,17 @@ macro_rules! start_server {
         let shutdown: Option<u64> = $shutdown;
         let obs3 = obs.clone();
         tokio::spawn(async move {
-            let r = match shutdown {
-                Some(ms) => srv.with_graceful_shutdown(async move { tokio::time::sleep(Duration::from_millis(ms)).await }).await,
-                None => srv.await,
+            let r = match (shutdown, on_accept) {
+                (Some(_), Some(_)) => {
+                    srv.with_graceful_shutdown(async move {
+                        if sig_rx.await.is_err() {
+                            std::future::pending::<()>().await;
+                        }
+                    })
+                    .await
+                }
+                (Some(ms), None) => srv.with_graceful_shutdown(async move { tokio::time::sleep(Duration::from_millis(ms)).await }).await,
+                (None, _) => srv.await,
             };
             let now = obs3.lock().unwrap().now();
             obs3.lock().unwrap().server_done[server] = Some((r.map_err(|e| e.to_string()), now));
@@ -561,6 +688,22 @@ pub fn request_version(case: &NetCase, spec: &ReqSpec) -> http::Version {
 fn build_request(case: &NetCase, id: usize, spec: &ReqSpec) -> http::Request<ChunkBody> {
     let srv = spec.server as usize % case.servers.len();
     let data: Vec<u8> = (0..spec.body_len as usize).map(|i| req_byte(id, i)).collect();
+    if is_upgrade(case, spec) {
+        let (p, q) = target_of(id, spec.target);
+        return http::Request::builder()
+            .method(METHODS[spec.method as usize % METHODS.len()])
+            .version(http::Version::HTTP_11)
+            .uri(match q {
+                Some(q) => format!("http://s{srv}.test{p}?{q}"),
+                None => format!("http://s{srv}.test{p}"),
+            })
+            .header("x-id", id)
+            .header("x-keep", format!("v{id}"))
+            .header(http::header::CONNECTION, "upgrade")
+            .header(http::header::UPGRADE, UPGRADE_PROTO)
+            .body(ChunkBody::default())
+            .unwrap();
+    }
     http::Request::builder()
         .method(METHODS[spec.method as usize % METHODS.len()])
         .version(request_version(case, spec))
@@ -579,9 +722,21 @@ fn build_request(case: &NetCase, id: usize, spec: &ReqSpec) -> http::Request<Chu
         .unwrap()
 }
 
-async fn run_request(svc: ClientSvc, req: http::Request<ChunkBody>, id: usize, resp_len: usize) -> ClientOutcome {
+async fn run_request(svc: ClientSvc, req: http::Request<ChunkBody>, id: usize, resp_len: usize, upgrade: Option<ReqSpec>) -> ClientOutcome {
     match svc.oneshot(req).await {
         Err(e) => ClientOutcome::Err(format!("{e}")),
+        Ok(resp) if upgrade.is_some() && resp.status() == http::StatusCode::SWITCHING_PROTOCOLS => {
+            let spec = upgrade.unwrap();
+            let hdr = |n: &str| resp.headers().get(n).and_then(|v| v.to_str().ok()).and_then(|v| v.parse::<usize>().ok());
+            let (id_hdr, origin_hdr, conn) = (hdr("x-id"), hdr("x-origin"), hdr("x-conn"));
+            match hyper::upgrade::on(resp).await {
+                Err(e) => ClientOutcome::BodyErr(format!("client-side upgrade failed: {e}")),
+                Ok(up) => match upgraded_client_half(hyperdriver::bridge::io::TokioIo::new(up), id, &spec).await {
+                    Ok((body_ok, body_len)) => ClientOutcome::Ok { status: 101, id_hdr, origin_hdr, conn, body_ok, body_len },
+                    Err(e) => ClientOutcome::BodyErr(e),
+                },
+            }
+        }
         Ok(resp) => {
             let (parts, body) = resp.into_parts();
             let hdr = |n: &str| parts.headers.get(n).and_then(|v| v.to_str().ok()).and_then(|v| v.parse::<usize>().ok());
@@ -699,13 +854,14 @@ pub fn run_net_case(case: &NetCase) -> Result<Obs, String> {
             for s in 0..nsrv {
                 let (client, incoming) = hyperdriver::stream::duplex::pair();
                 routes.push(client);
-                let ctx = Arc::new(SrvCtx { obs: obs.clone(), server: s, reqs: case.reqs.clone() });
+                let ctx = Arc::new(SrvCtx { obs: obs.clone(), server: s, reqs: case.reqs.clone(), upgrades: case.reqs.iter().map(|r| is_upgrade(&case, r)).collect() });
                 let shutdown = case.shutdown.filter(|(srv, _)| *srv as usize % nsrv == s).map(|(_, ms)| ms as u64);
+                let on_acc = shutdown.and(case.shutdown_on_accept).map(|k| k as usize);
                 let base = hyperdriver::Server::builder::<hyperdriver::Body>().with_incoming(incoming);
                 let h = match case.servers[s] % 3 {
-                    0 => start_server!(base.with_http1(), ctx, obs.clone(), s, shutdown),
-                    1 => start_server!(base.with_http2(), ctx, obs.clone(), s, shutdown),
-                    _ => start_server!(base.with_auto_http(), ctx, obs.clone(), s, shutdown),
+                    0 => start_server!(base.with_http1(), ctx, obs.clone(), s, shutdown, on_acc),
+                    1 => start_server!(base.with_http2(), ctx, obs.clone(), s, shutdown, on_acc),
+                    _ => start_server!(base.with_auto_http(), ctx, obs.clone(), s, shutdown, on_acc),
                 };
                 servers.push(h);
             }
@@ -722,7 +878,8 @@ pub fn run_net_case(case: &NetCase) -> Result<Obs, String> {
                 tasks.push(tokio::spawn(async move {
                     tokio::time::sleep(Duration::from_millis(spec.start as u64)).await;
                     let req = build_request(&case2, id, &spec);
-                    let fut = run_request(svc, req, id, spec.resp_len as usize);
+                    let up = if is_upgrade(&case2, &spec) { Some(spec.clone()) } else { None };
+                    let fut = run_request(svc, req, id, spec.resp_len as usize, up);
                     let outcome = match spec.cancel_at {
                         Some(c) => {
                             let d = (c as u64).saturating_sub(spec.start as u64);
@@ -841,6 +998,7 @@ pub fn req_strategy(nsrv: u8, allow_cancel: bool, allow_error: bool) -> impl pro
             cancel_at: cancel.map(|c| start + c),
             handler_error,
             target,
+            upgrade: false,
         })
 }
 
